@@ -14,7 +14,7 @@ def run(ctx):
     br = ctx.build('c11race', core.MODPATH + '/zzverif/c11', files, race=True)
     b = ctx.build('c11', core.MODPATH + '/zzverif/c11', files)
     racelog = os.path.join(ctx.scratch, 'race')
-    procs, rounds = (4, '5') if not ctx.thorough else (16, '25')
+    procs, rounds = (8, '3') if not ctx.thorough else (32, '12')
     ctx.children(br, procs, run='TestC11', timeout=2400, parallel=2, crash_key='C11/crash',
                  env={'VERIF_C11_ROUNDS': rounds, 'GORACE': 'halt_on_error=0 log_path=%s' % racelog})
     ctx.children(b, procs, run='TestC11', timeout=2400, parallel=2, crash_key='C11/crash', env={'VERIF_C11_ROUNDS': rounds, 'VERIF_C11_ITERS': '60'})
